@@ -185,6 +185,19 @@ CLAIMED["C16"] = dict(
          "Programs are enumerated, not sampled, up to the stated length; errors are injected at the n-th request of each transactional API (fencing is a real epoch bump at the coordinator).",
     design_ref="4/C16", note=TRACE_NOTE)
 
+CLAIMED["C19"] = dict(
+    technique="TLA+ spec Lifecycle (close sequences of consumer and producer; TLC safety + liveness from every configuration, defects expressible as switches that TLC must show failing) + TLC trace validation of real runs with stop() issued at every loop iteration x cluster condition",
+    category="model_checking",
+    text="Lifecycle.tla has one action per step of consumer.stop() (coordination task leaves its loop, final commit, LeaveGroup, GroupCoordinator/Fetcher/AIOKafkaClient close) and "
+         "producer.stop() (flush raced against the sender, Sender/client close) over the projected state (live tasks per component, armed timers, open connections, membership, coordinator "
+         "reachability); TLC checks NothingLeft, StopReturnsNormally, ClosedInOrder, BoundedWaits, LeftIfReachable, StaticStays and StopTerminates under fairness from every configuration. "
+         "The driver first records the instant of every event-loop iteration of a workload (each network message and timer firing is one), then re-runs the real client once per stopping point x "
+         "cluster condition (healthy, node down, node black-holed, all down, all black-holed, coordinator fail-over with/without state) and records the measured state at StopCall, at the return of each "
+         "component's close(), at StopReturn, after settling, plus the outcome of API calls made after stop and the LeaveGroup seen by the coordinator. Trace_Lifecycle.tla requires every event to be the "
+         "corresponding Lifecycle action with the measured numbers, stop() to return normally within 2 x request + session + rebalance timeout + 1 s, nothing to be left, later calls to raise the "
+         "documented error and a reachable, joined, non-static member to have left.",
+    design_ref="4/C19", note=TRACE_NOTE + " Task/timer/connection liveness is measured on the simulation loop by owner attribution.")
+
 NOT_APPLICABLE = {
     "C10": "memory safety of C-level reads on hostile bytes has no TLA+ state to bind to; outcome depends on heap neighbours (needs sanitizers, a different technique) - see DESIGN.md section 5",
 }
